@@ -455,6 +455,8 @@ func Run(r *fw.Run) {
 	c09.HugeLogs(r)
 	proofLengths(r)
 	craftedOutOfRange(r)
+	// readers that fail in every way (an error, one hash too few, too many, an error with a full-length answer)
+	c09.FailingAppends(r)
 }
 
 // proofLengths hands the checkers proofs of every length 0..200 (and a few far longer ones), made of
@@ -700,6 +702,10 @@ func Replay(r *fw.Run, raw json.RawMessage) {
 	}
 	if c.Kind == "huge" {
 		c09.HugeLogs(r)
+		return
+	}
+	if c.Kind == "failing" {
+		c09.FailingAppends(r)
 		return
 	}
 	if c.Note == "honest" {
